@@ -21,7 +21,7 @@ import traceback
 import numpy as np
 import z3
 
-from . import sym, shim, npx, stx
+from . import sym, shim, npx, stx, stubs
 from .sym import SR, SB, SymArray, Engine, HarnessError, PathAbort
 
 SYM_RTOL = 1e-6      # "robust violation" margin inside formulas (exact equality is tried first)
@@ -41,6 +41,17 @@ class ViolationFound(BaseException):
 class Unconfirmed(BaseException):
     def __init__(self, label, detail):
         self.label, self.detail = label, detail
+
+
+def _from_real_code(exc):
+    """did the exception pass through a frame of the virocon under test?"""
+    tb = exc.__traceback__
+    repo = os.path.realpath(shim.REPO) + os.sep
+    while tb is not None:
+        if os.path.realpath(tb.tb_frame.f_code.co_filename).startswith(repo):
+            return True
+        tb = tb.tb_next
+    return False
 
 
 class ConcreteFailure(Exception):
@@ -157,6 +168,10 @@ class H:
 
     def note(self, s):
         self.notes.append(s)
+
+    def generator(self, seed):
+        """a fresh generator seeded with `seed` (sym: generator token with the documented contract)"""
+        return stubs.default_rng(seed) if self.sym else np.random.default_rng(seed)
 
     # ------------------------------------------------------------------ checks
     def _model_inputs(self, m):
@@ -335,6 +350,8 @@ def run_concrete(fn, cfg, inputs=None, seed=0, tries=40):
         except HarnessError:
             raise
         except Exception as e:  # the real code raised where the property says it must compute
+            if not _from_real_code(e):
+                raise HarnessError(f"harness raised {type(e).__name__}: {e}\n{traceback.format_exc(limit=6)}")
             return False, {"inputs": dict(h.decl), "failed": "exception",
                            "detail": f"{type(e).__name__}: {e}", "tb": traceback.format_exc(limit=6)}
     return True, last
@@ -363,6 +380,8 @@ def run_obligation(prop, hname, fn, cfg, seed=0, timeout_ms=20000, max_paths=200
             h = H("sym", cfg, eng=E, replayer=replayer)
             try:
                 del stx.CALLS[:]
+                stubs.uninstall_all()
+                stubs.install_rng()
                 with shim.patched(extra_bindings(h) if extra_bindings else None):
                     fn(h)
             except PathAbort as e:
@@ -372,6 +391,8 @@ def run_obligation(prop, hname, fn, cfg, seed=0, timeout_ms=20000, max_paths=200
                 raise
             except Exception as e:
                 # unexpected exception on a feasible path of the real code
+                if not _from_real_code(e):
+                    raise HarnessError(f"harness raised {type(e).__name__}: {e}\n{traceback.format_exc(limit=6)}")
                 detail = f"{type(e).__name__}: {e}"
                 if E.feasible() == "sat":
                     try:
@@ -403,6 +424,7 @@ def run_obligation(prop, hname, fn, cfg, seed=0, timeout_ms=20000, max_paths=200
         res["error"] = f"{e}\n{traceback.format_exc(limit=8)}"
     finally:
         sym.set_engine(None)
+        stubs.uninstall_all()
     st = E.stats
     res.update(paths=st["paths"], decisions=st["decisions"], forks=st["forks"], queries=dict(st["queries"]),
                solver_s=round(st["solver_s"], 3), kernels=sorted(st["kernels"]), axioms=st["axioms"],
